@@ -2,12 +2,14 @@
    Statements only; every proof is `exact <lemma from Proofs/StorageProofs.v>`.
    Gen/GenHashes.v (the two precomputed keccak tables) and Gen/GenStoreConsts.v (OffsetMap
    bucket arithmetic, hash-range guards of sha3_data, 2^64 array bound, generic padding)
-   are regenerated from /repo/src/halmos/{hashes,utils,sevm}.py on every run; so is
+   are regenerated from /repo/src/halmos/{hashes,utils,sevm}.py on every run; so are
+   Gen/GenPreRegistry.v (how mk_precomputed_keccak_registry assembles the key, the hash symbol
+   and the preimage constant of each table row: the model's pre_entries is built from it) and
    Gen/GenStoreAxioms.v (the condition under which load() appends the emptiness axiom of the
    loaded index to the path, for each layout). *)
 From Coq Require Import ZArith NArith List Bool.
 From HV Require Import Base.Keccak Spec.StorageSpec Gen.GenStoreConsts Gen.GenHashes Gen.GenStoreAxioms
-  Model.StorageModel Proofs.StorageProofs.
+  Model.StorageModel Proofs.StorageProofs Proofs.StorageRegProofs.
 Import ListNotations.
 Open Scope Z_scope.
 
@@ -33,6 +35,81 @@ Theorem C08_tables_entries :
   om_set_all pre_entries (Some []) <> None.
 Proof. exact (conj pre_entries_ok precomputed_no_assert). Qed.
 Print Assumptions C08_tables_entries.
+
+(* ---- hash constants decoded through a registry (KeccakRegistry.reverse_lookup: per-path
+   OffsetMap, then the precomputed one).  Hypothesis on a registry, stated here in full: every
+   entry f_sha3_<bits>(<pre>) is filed under the hash of its own preimage.  Then the term a
+   constant is decoded through DENOTES that constant, for every hash function H *)
+Theorem C08_reverse_lookup_denotes :
+  forall (H : Z -> Z -> Z) (pre : omap) (R : registry) (e : env) (c : Z) (t : loc),
+    om_wf pre ->
+    (forall raw en off, In (raw, (en, off)) pre -> H (r_bits en) (r_pre en) = r_hash en /\ 0 <= r_hash en) ->
+    om_wf (hash_values R) ->
+    (forall raw en off, In (raw, (en, off)) (hash_values R) -> H (r_bits en) (r_pre en) = r_hash en /\ 0 <= r_hash en) ->
+    0 <= c < W ->
+    reverse_lookup_in pre R c = Some t -> eval H e t = c.
+Proof. exact reverse_lookup_sound. Qed.
+Print Assumptions C08_reverse_lookup_denotes.
+
+(* the hypothesis holds for the code's precomputed registry (tables of hashes.py assembled the
+   way utils.py assembles them, every entry recomputed with the executable Keccak-256), for the
+   empty per-path registry, and is preserved by register() of a correctly hashed entry *)
+Theorem C08_registry_hypothesis :
+  (om_wf precomputed /\
+   forall raw en off, In (raw, (en, off)) precomputed -> Hkeccak (r_bits en) (r_pre en) = r_hash en /\ 0 <= r_hash en) /\
+  (forall (H : Z -> Z -> Z) R en R',
+     om_wf (hash_values R) ->
+     (forall raw en off, In (raw, (en, off)) (hash_values R) -> H (r_bits en) (r_pre en) = r_hash en /\ 0 <= r_hash en) ->
+     H (r_bits en) (r_pre en) = r_hash en -> 0 <= r_hash en ->
+     register R en = Ok R' ->
+     om_wf (hash_values R') /\
+     (forall raw en off, In (raw, (en, off)) (hash_values R') -> H (r_bits en) (r_pre en) = r_hash en /\ 0 <= r_hash en)).
+Proof. exact (conj (conj precomputed_wf precomputed_sound) register_sound). Qed.
+Print Assumptions C08_registry_hypothesis.
+
+Theorem C08_precomputed_constants :
+  forall (e : env) (c : Z) (t : loc),
+    0 <= c < W -> reverse_lookup_in precomputed reg_empty c = Some t -> eval Hkeccak e t = c.
+Proof. exact precomputed_constants. Qed.
+Print Assumptions C08_precomputed_constants.
+
+(* last write wins between the constant spelling of a location and the hash-term spelling its
+   registry entry stands for (solidity layout, any recursion budget f, any sound oracle): the
+   two spellings denote the same EVM slot, decode to the same chunk and key, and a value stored
+   through one is what a load through the other returns *)
+Theorem C08_constant_spelling :
+  forall (val : Type) (evalv : env -> val -> Z) (kden : env -> list kt -> Z) (orc : list kt -> list kt -> tri)
+         (init : chunkid -> Z -> Z) (adm : env -> Prop),
+    (forall a b, orc a b = MustEq -> forall e, adm e -> kden e a = kden e b) ->
+    (forall a b, orc a b = MustNeq -> forall e, adm e -> kden e a <> kden e b) ->
+    forall (H : Z -> Z -> Z) (pre : omap) (R : registry) (e : env) (c : Z) (t : loc) (f : nat)
+           (s : storage (list kt) val) (v : val) (d : chunkid * list kt),
+      om_wf pre ->
+      (forall raw en off, In (raw, (en, off)) pre -> H (r_bits en) (r_pre en) = r_hash en /\ 0 <= r_hash en) ->
+      om_wf (hash_values R) ->
+      (forall raw en off, In (raw, (en, off)) (hash_values R) -> H (r_bits en) (r_pre en) = r_hash en /\ 0 <= r_hash en) ->
+      0 <= c < W -> adm e ->
+      reverse_lookup_in pre R c = Some t ->
+      bind (key_structure pre R (S f) (K c)) (fun r => match r with (slot, keys, n, sz) => Ok ((slot, n, sz), keys) end) = Ok d ->
+      eval H e t = eval H e (K c) /\
+      bind (key_structure pre R f t) (fun r => match r with (slot, keys, n, sz) => Ok ((slot, n, sz), keys) end) = Ok d /\
+      evalr (list kt) val kden evalv init e (symbolic _ _ s)
+        (load _ _ orc (store _ _ s (fst d) (snd d) v) (fst d) (snd d)) = evalv e v.
+Proof. exact const_spelling_lww. Qed.
+Print Assumptions C08_constant_spelling.
+
+(* the generic layout decodes a constant as the term its registry entry stands for, too *)
+Theorem C08_constant_spelling_generic :
+  forall pre R e f c t, reverse_lookup_in pre R c = Some t ->
+    decode_gen pre R e (S f) (K c) = decode_gen pre R e f t.
+Proof. exact decode_gen_const. Qed.
+Print Assumptions C08_constant_spelling_generic.
+
+Example C08_constant_spelling_nonvacuous :
+  reverse_lookup_in precomputed reg_empty (Hkeccak 512 1) = Some (ShaC 512 1) /\
+  sol_decode reg_empty (K (Hkeccak 512 1)) = Ok ((1, 2, 512), [KW [K 0]; KW [K 0]]) /\
+  sol_decode reg_empty (Sha512 (V 0) (K 1)) = Ok ((1, 2, 512), [KW [V 0]; KW [K 0]]).
+Proof. exact precomputed_example. Qed.
 
 (* ---- OffsetMap: a successful lookup returns an entry whose key is exactly `delta` away,
    |delta| < 2^16 (delta may be negative); a stored key is found with its distance from any
